@@ -29,6 +29,7 @@ class Rig:
         self.script = {}           # (step, uid, retry) -> outcome override
         self.loop = None
         self.live = {}             # step -> number of bodies currently executing
+        self.wid_by_key = {}       # (step, uid, retry, nth) -> worker slot of that invocation (-1 if unknown)
         self.counters = {}         # (step, uid, retry) -> nth execution (collect re-runs, waiter replays)
         self.wid_of = None         # callable(step, event) -> worker slot of the invocation holding this event object, or -1
 
@@ -119,6 +120,7 @@ def _mk_body(sname, scfg, rig: Rig):
                 wid = int(rig.wid_of(sname, ev))
             except Exception:  # noqa: BLE001
                 wid = -1
+        rig.wid_by_key[key] = wid
         sf = {"step": "", "attempts": -1, "elapsed_ms": -1, "exc": ""}
         if ty == "Failed":
             sf = {"step": ev.step_name, "attempts": int(ev.attempts), "elapsed_ms": int(round(ev.elapsed_seconds * 1000)),
